@@ -224,14 +224,17 @@ bool splinetable<Alloc>::read_fits_core(fitsfile* fits, const std::string& fileP
 				//distinguish whitespace included by the user and whitespace pointlessly
 				//added by FITS.
 				if(valuelen>1 && value[0]=='\''){
-					if(valuelen>2 && value[valuelen-2]=='\''){ //remove a trailing quote also
-						std::copy(value+1,value+valuelen-2,aux[i][1]);
-						aux[i][1][valuelen-3]='\0';
+					const char* end=value+valuelen-1; //just remove an opening quote
+					if(valuelen>2 && value[valuelen-2]=='\'') //remove a trailing quote also
+						end--;
+					//a quote inside a FITS string is stored doubled; undo that
+					char* out=&aux[i][1][0];
+					for(const char* in=value+1; in<end; in++){
+						*out++=*in;
+						if(in[0]=='\'' && in+1<end && in[1]=='\'')
+							in++;
 					}
-					else{ //just remove an opening quote
-						std::copy(value+1,value+valuelen-1,aux[i][1]);
-						aux[i][1][valuelen-2]='\0';
-					}
+					*out='\0';
 				}
 				else{
 					std::copy(value,value+valuelen,aux[i][1]);
